@@ -194,9 +194,25 @@ def Sc.isFloat : Sc → Bool
 def toInt (w : Nat) (n : Nat) : Int :=
   if n < 2 ^ (8 * w - 1) then (n : Int) else (n : Int) - (2 ^ (8 * w) : Nat)
 
-/-- `operator<` of the integer types (floats are not used as keys: `false`) -/
+/-! IEEE-754 `operator<` on the raw bit patterns (`float` = 4 bytes, `double` = 8
+bytes): a NaN compares `false` with everything; otherwise the order is the order
+of the sign-magnitude integers, `-0.0` and `+0.0` both at 0 (they compare equal). -/
+
+/-- exponent all ones and a non-zero mantissa -/
+def isNaN : Sc → Nat → Bool
+  | .f32, n => decide (0x7f800000 < n % 0x80000000)
+  | .f64, n => decide (0x7ff0000000000000 < n % 0x8000000000000000)
+  | _, _ => false
+
+/-- place of a non-NaN `w`-byte IEEE pattern on the number line: sign bit set →
+minus the magnitude bits, else the magnitude bits (monotone in the value; ±0 ↦ 0) -/
+def fOrd (w : Nat) (n : Nat) : Int :=
+  if n / 2 ^ (8 * w - 1) % 2 = 1 then -((n % 2 ^ (8 * w - 1) : Nat) : Int) else ((n % 2 ^ (8 * w - 1) : Nat) : Int)
+
+/-- `operator<` of the arithmetic types: integers numerically (two's complement for
+the signed ones), `float`/`double` by IEEE `<` -/
 def scLt (k : Sc) (a b : Nat) : Bool :=
-  if k.isFloat then false
+  if k.isFloat then !isNaN k a && !isNaN k b && decide (fOrd k.width a < fOrd k.width b)
   else if k.signed then decide (toInt k.width a < toInt k.width b) else decide (a < b)
 
 /-- `std::string::operator<`: lexicographic on `unsigned char`, a proper prefix is smaller -/
@@ -205,12 +221,60 @@ def bytesLt : List Byte → List Byte → Bool
   | [], _ :: _ => true
   | a :: as, b :: bs => if a.toNat < b.toNat then true else if b.toNat < a.toNat then false else bytesLt as bs
 
-/-- `operator<` of the key types of the family: integers, std::string, std::pair of keys -/
+/-- `std::lexicographical_compare` (= `operator<` of `std::vector`, and of `std::map`
+over its entries): the first position where one element is smaller decides; a
+proper prefix is smaller -/
+def lexBy (lt : Val → Val → Bool) : List Val → List Val → Bool
+  | _, [] => false
+  | [], _ :: _ => true
+  | a :: as, b :: bs => if lt a b then true else if lt b a then false else lexBy lt as bs
+
+/-- `operator<` of `std::pair`: `x.first < y.first || (!(y.first < x.first) && x.second < y.second)` -/
+def pairLt (l1 l2 : Val → Val → Bool) (x y : Val) : Bool :=
+  l1 x.fst y.fst || (!l1 y.fst x.fst && l2 x.snd y.snd)
+
+mutual
+/-- `std::less<K>` = `operator<` of EVERY type of the universe, the order
+`std::map<K, …>` keeps its entries in: arithmetic types numerically (IEEE `<` for
+float/double), `std::string` bytewise, `std::vector` / `std::pair` / `std::tuple`
+lexicographically over the order of their components, a `std::map` used as a key
+lexicographically over its entries (each a `std::pair`).  A user type has no
+`operator<` of its own; it is given the usual one, `std::tie(fields…) < std::tie(fields…)`
+(what the harness' key type `UK` declares).  `igris::buffer` cannot be a key
+(no `load` for it inside a container); it is given the byte order of strings. -/
 def keyLt : Ty → Val → Val → Bool
   | .sc k, x, y => scLt k x.bits y.bits
   | .str, x, y => bytesLt x.bs y.bs
-  | .pair a b, x, y => keyLt a x.fst y.fst || (!keyLt a y.fst x.fst && keyLt b x.snd y.snd)
-  | _, _, _ => false
+  | .buf, x, y => bytesLt x.bs y.bs
+  | .vec t, x, y => lexBy (keyLt t) x.items y.items
+  | .pair a b, x, y => pairLt (keyLt a) (keyLt b) x y
+  | .tuple ts, x, y => keyLtFields ts x.items y.items
+  | .map k t, x, y => lexBy (pairLt (keyLt k) (keyLt t)) x.items y.items
+  | .struct fs, x, y => keyLtFields fs x.items y.items
+/-- `operator<` of `std::tuple` (and of `std::tie` of the fields of a user type) -/
+def keyLtFields : List Ty → List Val → List Val → Bool
+  | [], _, _ => false
+  | t :: ts, xs, ys =>
+    keyLt t (xs.headD default) (ys.headD default) ||
+      (!keyLt t (ys.headD default) (xs.headD default) && keyLtFields ts xs.tail ys.tail)
+end
+
+mutual
+/-- no NaN anywhere inside the value: exactly the keys on which `operator<` is a
+strict weak order (the requirement `std::map` puts on its `Compare`) -/
+def keyClean : Ty → Val → Bool
+  | .sc k, v => !isNaN k v.bits
+  | .str, _ => true
+  | .buf, _ => true
+  | .vec t, v => v.items.all (keyClean t)
+  | .pair a b, v => keyClean a v.fst && keyClean b v.snd
+  | .tuple ts, v => keyCleanFields ts v.items
+  | .map k t, v => v.items.all (fun kv => keyClean k kv.fst && keyClean t kv.snd)
+  | .struct fs, v => keyCleanFields fs v.items
+def keyCleanFields : List Ty → List Val → Bool
+  | [], _ => true
+  | t :: ts, vs => keyClean t (vs.headD default) && keyCleanFields ts vs.tail
+end
 
 /-- `std::map::insert(value_type)`: no effect when an equivalent key is present -/
 def mapInsert (kt : Ty) (kv : Val) : List Val → List Val
@@ -363,10 +427,14 @@ end
 
 /-! ### well-formed values: the domain of the round-trip theorems -/
 
-/-- consecutive map entries are in strictly increasing key order (what
-iterating a std::map yields) -/
+/-- two entries of one map, the first before the second: strictly increasing
+key order (what iterating a std::map yields) and — because a map with two or more
+entries has compared its keys — keys without NaN (`std::map` requires a strict
+weak order; NaN breaks it, see `key_order_nan_witness`).  A map with a single
+entry may have any key. -/
 def keyOrdered (kt : Ty) (a b : Val) : Prop :=
-  keyLt kt a.fst b.fst = true ∧ keyLt kt b.fst a.fst = false
+  keyLt kt a.fst b.fst = true ∧ keyLt kt b.fst a.fst = false ∧
+    keyClean kt a.fst = true ∧ keyClean kt b.fst = true
 
 mutual
 /-- `v` is a value of C++ type `ty`: scalars fit their width, strings/buffers
@@ -406,7 +474,8 @@ def wfb : Ty → Val → Bool
       kvs.all (fun kv => match kv with
         | .list [x, y] => wfb k x && wfb t y
         | _ => false) &&
-      pairwiseB (fun a b => keyLt k a.fst b.fst && !keyLt k b.fst a.fst) kvs
+      pairwiseB (fun a b => keyLt k a.fst b.fst && !keyLt k b.fst a.fst &&
+        keyClean k a.fst && keyClean k b.fst) kvs
   | .struct fs, .list vs => wfbs fs vs
   | _, _ => false
 def wfbs : List Ty → List Val → Bool
@@ -490,5 +559,187 @@ def decodeData (k : Sc) (n : Nat) (rem : List Byte) : Option (List Val × List B
 /-- `deserialize_storage::loads(size)`: `ret.resize(size)` (zero-filled), then
 the clamped `load(&*ret.begin(), size)` -/
 def loadsS (rem : List Byte) (size : Nat) : Option (List Byte × List Byte) := loadS rem size
+
+/-! ### extension 2: the archive reader AFTER `fix: binary_buffer_reader never reads beyond _end`
+
+`decodeA` above is the reader as it was (no comparison with `_end`: `none` = a read
+past the input); it stays as the strict reference reader.  The code now is `decodeB`. -/
+
+/-- `binary_buffer_reader::load_data(char *dat, uint16_t size)` after the fix:
+`avail = _end - ptr; len = size < avail ? size : avail; memcpy(dat, ptr, len);
+memset(dat + len, 0, size - len); ptr += len;` — the clamp of the storage reader -/
+def loadDataB (rem : List Byte) (sz : Nat) : Option (List Byte × List Byte) := loadS rem (u16 sz)
+
+/-- `skip(int size)` after the fix: `if (size > _end - ptr) size = _end - ptr; ptr += size;` -/
+def skipB (rem : List Byte) (n : Nat) : List Byte := rem.drop n
+
+def loadScalarB (k : Sc) (rem : List Byte) : Option (Nat × List Byte) :=
+  match loadDataB rem k.width with
+  | some (bs, r) => some (leVal bs, r)
+  | none => none
+
+/-- std::string: `deserialize(keeper, size); str.resize(size); keeper.load_data(str.data(), str.size())` -/
+def loadStringB (rem : List Byte) : Option (List Byte × List Byte) :=
+  match loadScalarB .u16 rem with
+  | none => none
+  | some (n, r) => loadDataB r n
+
+/-- `load(settable_buffer&)` after the fix: `load(len); if (len > end() - pointer()) len = end() - pointer();
+buf.ref = buffer(pointer(), len); skip(len);` — a zero-copy view cannot be zero-filled, it is cut -/
+def loadViewB (rem : List Byte) : Option (List Byte × List Byte) :=
+  match loadScalarB .u16 rem with
+  | none => none
+  | some (n, r) => some (r.take (u16 n), skipB r (u16 n))   -- `len` is a `uint16_t`
+
+mutual
+/-- `igris::deserialize(keeper, obj)` over the bounded `binary_buffer_reader` -/
+def decodeB : Ty → List Byte → Option (Val × List Byte)
+  | .sc k, rem =>
+    match loadScalarB k rem with
+    | some (n, r) => some (.sc n, r)
+    | none => none
+  | .str, rem =>
+    match loadStringB rem with
+    | some (bs, r) => some (.bytes bs, r)
+    | none => none
+  | .buf, rem =>
+    match loadViewB rem with
+    | some (bs, r) => some (.bytes bs, r)
+    | none => none
+  | .vec t, rem =>
+    match loadScalarB .u16 rem with
+    | none => none
+    | some (n, r) =>
+      match repeatN (decodeB t) n r with
+      | some (xs, r2) => some (.list xs, r2)
+      | none => none
+  | .pair a b, rem =>
+    match decodeB a rem with
+    | none => none
+    | some (x, r) =>
+      match decodeB b r with
+      | some (y, r2) => some (.list [x, y], r2)
+      | none => none
+  | .tuple ts, rem =>
+    match decodeFieldsB ts rem with
+    | some (xs, r) => some (.list xs, r)
+    | none => none
+  | .map k t, rem =>
+    match loadScalarB .u16 rem with
+    | none => none
+    | some (n, r) =>
+      match repeatN (fun rem =>
+          match decodeB k rem with
+          | none => none
+          | some (x, r) =>
+            match decodeB t r with
+            | some (y, r2) => some (Val.list [x, y], r2)
+            | none => none) n r with
+      | some (kvs, r2) => some (.list (mapFromList k kvs), r2)
+      | none => none
+  | .struct fs, rem =>
+    match decodeFieldsB fs rem with
+    | some (xs, r) => some (.list xs, r)
+    | none => none
+def decodeFieldsB : List Ty → List Byte → Option (List Val × List Byte)
+  | [], rem => some ([], rem)
+  | t :: ts, rem =>
+    match decodeB t rem with
+    | none => none
+    | some (x, r) =>
+      match decodeFieldsB ts r with
+      | some (xs, r2) => some (x :: xs, r2)
+      | none => none
+end
+
+/-- `load(char *dat, uint16_t maxsz)` over the bounded reader (`dat` zero-initialised by the caller) -/
+def loadCharArrB (rem : List Byte) (maxsz : Nat) : Option (List Byte × List Byte) :=
+  match loadScalarB .u16 rem with
+  | none => none
+  | some (sz, r) =>
+    let readsize := if u16 maxsz < sz then u16 maxsz else sz
+    match loadDataB r readsize with
+    | none => none
+    | some (bs, r2) => some (bs, skipB r2 (sz - readsize))
+
+/-- `load(writable_buffer &buf)` over the bounded reader -/
+def loadWritableB (rem : List Byte) (cap : Nat) : Option (List Byte × List Byte) :=
+  match loadScalarB .u16 rem with
+  | none => none
+  | some (len, r) =>
+    let readsize := if cap < len then cap else len
+    match loadDataB r readsize with
+    | none => none
+    | some (bs, r2) => some (bs, skipB r2 (len - readsize))
+
+/-- `archive::data<T>{ptr, n}.reflect(r)` over the bounded reader -/
+def decodeDataB (k : Sc) (n : Nat) (rem : List Byte) : Option (List Val × List Byte) :=
+  match loadDataB rem (n * k.width) with
+  | none => none
+  | some (bs, r) => some (chunks k.width n (bs ++ List.replicate (n * k.width - bs.length) 0#8), r)
+
+/-! ### extension 2: the storage reader with its cursor, exactly as the code has it -/
+
+/-- `deserialize_buffer_storage`: the buffer it was constructed over and `size_t cursor` -/
+structure Store where
+  data : List Byte
+  cursor : Nat
+
+/-- subtraction of two `size_t` (wraps modulo 2^64) -/
+def subSize (a b : Nat) : Nat := (a % 2 ^ 64 + (2 ^ 64 - b % 2 ^ 64)) % 2 ^ 64
+
+/-- `deserialize_buffer_storage::load(char *data, size_t size)` into a value-initialised object:
+`auto len = MIN(size, _storage.size() - cursor);` (size_t arithmetic: wraps when cursor > size)
+`memcpy(data, _storage.data() + cursor, len);` (reads `[cursor, cursor+len)`: `none` when that leaves the buffer)
+`cursor += len;` -/
+def Store.load (s : Store) (size : Nat) : Option (List Byte × Store) :=
+  let len := min size (subSize s.data.length s.cursor)
+  match readN len (s.data.drop s.cursor) with
+  | some (bs, _) => some (bs ++ List.replicate (size - len) 0#8, { s with cursor := (s.cursor + len) % 2 ^ 64 })
+  | none => none
+
+/-- `avail()` as a `size_t` (the code returns it as `int`) -/
+def Store.avail (s : Store) : Nat := subSize s.data.length s.cursor
+
+/-- the element loops over a store -/
+def repeatC {α : Type} (f : Store → Option (α × Store)) : Nat → Store → Option (List α × Store)
+  | 0, s => some ([], s)
+  | n + 1, s =>
+    match f s with
+    | none => none
+    | some (x, s1) =>
+      match repeatC f n s1 with
+      | none => none
+      | some (xs, s2) => some (x :: xs, s2)
+
+mutual
+/-- `deserializer::deserialize<T>()` over a `deserialize_buffer_storage`, cursor and all -/
+def decodeC : Ty → Store → Option (Val × Store)
+  | .sc k, s =>
+    match s.load k.width with
+    | some (bs, s1) => some (.sc (leVal bs), s1)
+    | none => none
+  | .vec t, s =>
+    match s.load 2 with
+    | none => none
+    | some (bs, s1) =>
+      match repeatC (decodeC t) (leVal bs) s1 with
+      | some (xs, s2) => some (.list xs, s2)
+      | none => none
+  | .struct fs, s =>
+    match decodeFieldsC fs s with
+    | some (xs, s1) => some (.list xs, s1)
+    | none => none
+  | _, s => some (default, s)
+def decodeFieldsC : List Ty → Store → Option (List Val × Store)
+  | [], s => some ([], s)
+  | t :: ts, s =>
+    match decodeC t s with
+    | none => none
+    | some (x, s1) =>
+      match decodeFieldsC ts s1 with
+      | some (xs, s2) => some (x :: xs, s2)
+      | none => none
+end
 
 end Igris.C09
